@@ -929,6 +929,8 @@ def _h_embedding(name: str, func: Any, args: Tuple[Any, ...], kw: Dict[str, Any]
     idx, w = d["input"], d["weight"]
     meta = _run_meta(F.embedding, (idx, w), {})
     st = {k: d[k] for k in ("padding_idx", "max_norm", "norm_type", "scale_grad_by_freq", "sparse")}
+    if d["max_norm"] is not None and isinstance(w, STensor):
+        w.version += 1  # F.embedding renormalises the rows of the table IT IS GIVEN in place (documented): a write to that tensor object
     return opaque("embedding", [idx, w], st, idx.shape + (w.shape[1],), meta, diff=[1])
 
 
